@@ -105,6 +105,11 @@ pub fn run(stim: &Value, rec: &Rec) {
         // ---- client
         let uri = match stim["name"].as_str().unwrap_or("match") { "uri_mismatch" => "https://other.test", _ => "https://good.test" };
         let mut ep = tonic::transport::Endpoint::from_static(uri);
+        // origin override ("good_before" | "good_after" | "bad_before" | "bad_after"): host that does / does not match the certificate,
+        // set before or after tls_config; it names the :authority of requests and plays no part in authenticating the peer
+        let origin = stim["origin"].as_str().unwrap_or("none").to_string();
+        let origin_uri: Option<http::Uri> = if origin.starts_with("good") { Some("https://good.test".parse().unwrap()) } else if origin.starts_with("bad") { Some("https://wrong.test".parse().unwrap()) } else { None };
+        if origin.ends_with("_before") { ep = ep.origin(origin_uri.clone().unwrap()); }
         if stim["tls_cfg"].as_bool().unwrap_or(true) {
             let mut t = ClientTlsConfig::new().assume_http2(stim["assume_http2"].as_bool().unwrap_or(false));
             match stim["roots"].as_str().unwrap_or("right") { "right" => { t = t.ca_certificate(Certificate::from_pem(pem("ca_a.pem"))); } "other" => { t = t.ca_certificate(Certificate::from_pem(pem("ca_b.pem"))); } _ => {} }
@@ -112,6 +117,7 @@ pub fn run(stim: &Value, rec: &Rec) {
             match stim["identity"].as_str().unwrap_or("none") { "valid" => { t = t.identity(Identity::from_pem(pem("client_c.pem"), pem("client_c.key"))); } "other_ca" => { t = t.identity(Identity::from_pem(pem("client_b.pem"), pem("client_b.key"))); } _ => {} }
             match ep.tls_config(t) { Ok(e) => ep = e, Err(e) => { log.ev(json!({"e":"client","connect":"config_err","call":"none","code":-1,"msg":e.to_string()})); return; } }
         }
+        if origin.ends_with("_after") { ep = ep.origin(origin_uri.clone().unwrap()); }
         let mut slot = Some(TapIo { inner: c_io, first: first.clone() });
         let ch = tokio::time::timeout(Duration::from_secs(30), ep.connect_with_connector(tower::service_fn(move |_: http::Uri| { let io = slot.take(); async move { io.map(hyper_util::rt::TokioIo::new).ok_or_else(|| std::io::Error::other("gone")) } }))).await;
         let (connect, call, code) = match ch {
